@@ -382,7 +382,7 @@ pub fn traced_run_from(elf_path: &str, args: &str, with_twin: bool, max_ticks: u
         let mut t = tr.borrow_mut();
         t.ticks += 1;
         if t.ticks == 1 && start != 0 {
-            cpu.verif_set_state_sum(start as usize);
+            // (the count itself was preset before run() was entered)
             if let Some(tw) = &tw {
                 tw.borrow_mut().cpu.bus.cpu_state_sum = start as usize;
             }
@@ -500,6 +500,9 @@ pub fn traced_run_from(elf_path: &str, args: &str, with_twin: bool, max_ticks: u
             }
         }
     });
+    if start != 0 {
+        rig.cpu.verif_set_state_sum(start as usize);
+    }
     let end = run_with_hook(&mut rig.cpu, tick);
     let msgs = rig.drain();
     let mut t = trace.borrow_mut();
